@@ -75,9 +75,54 @@ def egsfPoint (c1 c2 : Q) (row : List Q) : List Q :=
     [a1w, a2w, wgt c1 a1w, wgt c2 a2w, E fl (quadFn a1w a2w f00 f01 f10 f11) c1 c2 a1 a2]
   | _ => []
 
+/-- `none` | `some x y z` prefix → (xvect, remaining tokens as rationals). -/
+def takeXvect (toks : List String) : Option (Option (V3 Q) × List Q) :=
+  match toks with
+  | "none" :: rest => do
+      let xs ← parseRats? rest
+      pure (none, xs)
+  | "some" :: rest => do
+      let xs ← parseRats? rest
+      let (v, r) ← takeV3 xs
+      pure (some v, r)
+  | _ => none
+
+/-- ops whose first argument is an optional x axis: `p2xy`, `xy2p`, `q2a xy`. -/
+def handleXY (op : String) (toks : List String) : String := done do
+  let (xv, xs) ← takeXvect toks
+  let (A1, r) ← takeV3 xs
+  let (A2, r) ← takeV3 r
+  let (nn, r) ← take1 r
+  let (nx, r) ← take1 r
+  let (ny, r) ← take1 r
+  let (nz, r) ← take1 r
+  let (m, r) ← takeNat r
+  if op = "p2xy" then do
+    let (ps, _) ← takeV3s m r
+    match ps.mapM (posToXYApi A1 A2 nn nx ny nz xv) with
+    | some l => pure (showRats (flatPairs l))
+    | none => pure (err "value")
+  else if op = "xy2p" then do
+    let (rows, _) ← takeN (2 * m) r
+    match (toPairs rows).mapM (xyToPosApi A1 A2 nn nx ny nz xv) with
+    | some l => pure (showRats (flatV3 l))
+    | none => pure (err "value")
+  else do
+    -- q2a xy: plotting coordinates → fractional coordinates (`xy_to_a12`)
+    let (rows, _) ← takeN (2 * m) r
+    match (toPairs rows).mapM (fun q => xyToPosApi A1 A2 nn nx ny nz xv q) with
+    | none => pure (err "value")
+    | some ps =>
+      match ps.mapM (posToA12? A1 A2) with
+      | some l => pure (showRats (flatPairs l))
+      | none => pure (err "assert")
+
 def handle (toks : List String) : String :=
   match toks with
   | [] => err "op"
+  | "p2xy" :: rest => handleXY "p2xy" rest
+  | "xy2p" :: rest => handleXY "xy2p" rest
+  | "q2axy" :: rest => handleXY "q2axy" rest
   | op :: rest =>
     match parseRats? rest with
     | none => err "format"
@@ -121,24 +166,14 @@ def handle (toks : List String) : String :=
           match ps.mapM (posToA12? A1 A2) with
           | some l => pure (showRats (flatPairs l))
           | none => pure (err "assert")
-      | "p2xy" | "xy2p" => done do
-          let (X, r) ← takeV3 xs
-          let (A1, r) ← takeV3 r
+      | "q2apos" => done do
+          let (A1, r) ← takeV3 xs
           let (A2, r) ← takeV3 r
-          let (nn, r) ← take1 r
-          let (nx, r) ← take1 r
-          let (ny, r) ← take1 r
-          let (nz, r) ← take1 r
           let (m, r) ← takeNat r
-          let Nh := planeNormal A1 A2 nn
-          if !(xvectOk X Nh) then pure (err "value") else
-          let T := xyTransform X Nh nx ny nz
-          if op = "p2xy" then do
-            let (ps, _) ← takeV3s m r
-            pure (showRats (flatPairs (ps.map (posToXY T))))
-          else do
-            let (rows, _) ← takeN (2 * m) r
-            pure (showRats (flatV3 ((toPairs rows).map (xyToPos T))))
+          let (ps, _) ← takeV3s m r
+          match ps.mapM (fun p => (Query.pos p).toA12? A1 A2 0 0 0 0) with
+          | some l => pure (showRats (flatPairs l))
+          | none => pure (err "assert")
       | "dens" => done do
           let (cd, r) ← takeBool xs
           let (n, r) ← takeNat r
@@ -244,8 +279,130 @@ def handle (toks : List String) : String :=
           pure (showRats (flatV3 (pnArctanDisldensity pi x b center hw nrm normB normInt)))
       | _ => err "op"
 
+/-! #### the SDVPN object (stateful part of the driver) -/
+
+def takeOpt {α : Type} (f : List Q → Option (α × List Q)) (xs : List Q) : Option (Option α × List Q) := do
+  let (has, r) ← takeBool xs
+  if has then do
+    let (v, r) ← f r
+    pure (some v, r)
+  else pure (none, r)
+
+def takeList (xs : List Q) : Option (List Q × List Q) := do
+  let (n, r) ← takeNat xs
+  takeN n r
+
+def takeProfile (xs : List Q) : Option (List (V3 Q) × List Q) := do
+  let (n, r) ← takeNat xs
+  takeV3s n r
+
+/-- `Kt(9) b(3) T(9) pi τ1(3) nα α… β(9) logL full cde cds cdt`. -/
+def takeSettings (xs : List Q) : Option (Settings Q × List Q) := do
+  let (Kt, r) ← takeM3 xs
+  let (b, r) ← takeV3 r
+  let (T, r) ← takeM3 r
+  let (pi, r) ← take1 r
+  let (τ1, r) ← takeV3 r
+  let (αs, r) ← takeList r
+  let (β, r) ← takeM3 r
+  let (logL, r) ← take1 r
+  let (full, r) ← takeBool r
+  let (cde, r) ← takeBool r
+  let (cds, r) ← takeBool r
+  let (cdt, r) ← takeBool r
+  pure (⟨Kt, b, T, τ1, αs, β, logL, pi, full, cde, cds, cdt⟩, r)
+
+def takeKw (xs : List Q) : Option (SolveKw Q × List Q) := do
+  let (x, r) ← takeOpt takeList xs
+  let (d, r) ← takeOpt takeProfile r
+  let (τ1, r) ← takeOpt takeV3 r
+  let (αs, r) ← takeOpt takeList r
+  let (β, r) ← takeOpt takeM3 r
+  let (logL, r) ← takeOpt take1 r
+  let (full, r) ← takeOpt takeBool r
+  let (cde, r) ← takeOpt takeBool r
+  let (cds, r) ← takeOpt takeBool r
+  let (cdt, r) ← takeOpt takeBool r
+  pure ({ x := x, d := d, τ1 := τ1, αs := αs, β := β, logL := logL, fullstress := full,
+          cdiffelastic := cde, cdiffsurface := cds, cdiffstress := cdt }, r)
+
+def parseOp (field : String) (xs : List Q) : Option (Op Q) :=
+  match field with
+  | "tau" => do let (v, _) ← takeV3 xs; pure (.setTau v)
+  | "alpha" => do let (l, _) ← takeList xs; pure (.setAlpha l)
+  | "beta" => do let (m, _) ← takeM3 xs; pure (.setBeta m)
+  | "logL" => do let (l, _) ← take1 xs; pure (.setLogL l)
+  | "full" => do let (b, _) ← takeBool xs; pure (.setFull b)
+  | "cde" => do let (b, _) ← takeBool xs; pure (.setCdE b)
+  | "cds" => do let (b, _) ← takeBool xs; pure (.setCdS b)
+  | "cdt" => do let (b, _) ← takeBool xs; pure (.setCdT b)
+  | _ => none
+
+/-- one energy term of the current object; the profile is the stored one (`0`) or given (`1 n x… d…`);
+    `elastic` is followed by the table of logs. -/
+def evalTerm (o : Obj Q) (term : String) (xs : List Q) : Option String := do
+  let (given, r) ← takeBool xs
+  let (x, d, r) ← (if given then do
+      let (x, r) ← takeList r
+      let (d, r) ← takeV3s x.length r
+      pure (x, d, r)
+    else pure (o.x, o.d, r))
+  match term with
+  | "long" => pure (showRat (longrangeEnergy o.s.pi o.s.logL o.s.Kt o.s.burgers))
+  | "stress" => pure (showRat (stressEnergy o.s.fullstress o.s.cdiffstress o.s.τ1 x d))
+  | "surface" => pure (showRat (surfaceEnergy o.s.cdiffsurface o.s.β x d))
+  | "nonlocal" => pure (showRat (nonlocalEnergy o.s.αs x d))
+  | "elastic" =>
+      let dx := gridStep x
+      let nρ := (disldensity o.s.cdiffelastic x d).length
+      let (logs, _) ← takeN nρ r
+      let keys := (List.range nρ).map (fun k => ((k + 1 : Nat) : Q) * dx)
+      pure (showRat (elasticEnergy (tableFn keys logs) o.s.pi o.s.Kt o.s.cdiffelastic x d))
+  | "state" =>
+      pure (showRats (o.s.τ1.toList ++ [(o.s.αs.length : Q)] ++ o.s.αs ++ o.s.β.r0.toList ++ o.s.β.r1.toList
+        ++ o.s.β.r2.toList ++ [o.s.logL] ++ [o.s.fullstress, o.s.cdiffelastic, o.s.cdiffsurface, o.s.cdiffstress].map
+          (fun b => if b then (1 : Q) else 0) ++ [(o.x.length : Q)] ++ o.x ++ flatV3 o.d))
+  | _ => none
+
+def step (st : Option (Obj Q)) (toks : List String) : Option (Obj Q) × String :=
+  match toks with
+  | "onew" :: rest =>
+      match (parseRats? rest).bind takeSettings with
+      | some (s, _) => (some ⟨s, [], []⟩, "ok")
+      | none => (st, err "format")
+  | "oset" :: field :: rest =>
+      match st, (parseRats? rest).bind (parseOp field) with
+      | some o, some op => (some (o.apply op), "ok")
+      | none, _ => (st, err "op")
+      | _, none => (st, err "format")
+  | "osolve" :: rest =>
+      match st, (parseRats? rest).bind (fun xs => do
+          let (kw, r) ← takeKw xs
+          let (res, _) ← takeList r
+          pure (kw, res)) with
+      | some o, some (kw, res) =>
+          if res.length % 2 ≠ 0 then (st, err "value") else
+          let o' := o.apply (.solve kw res)
+          (some o', showRats (flatV3 o'.d))
+      | none, _ => (st, err "op")
+      | _, none => (st, err "format")
+  | "oload" :: rest =>
+      match (parseRats? rest).bind (fun xs => do
+          let (s, r) ← takeSettings xs
+          let (x, r) ← takeList r
+          let (d, _) ← takeV3s x.length r
+          pure (⟨s, x, d⟩ : Obj Q)) with
+      | some o' => (((st.getD o').apply (.load o')), "ok")
+      | none => (st, err "format")
+  | "oeval" :: term :: rest =>
+      match st, parseRats? rest with
+      | some o, some xs => (st, (evalTerm o term xs).getD (err "format"))
+      | none, _ => (st, err "op")
+      | _, none => (st, err "format")
+  | _ => (st, handle toks)
+
 end C18Drv
 
 def handleC18 (toks : List String) : String := C18Drv.handle toks
 
-def main : IO Unit := runDriver handleC18
+def main : IO Unit := runDriverS C18Drv.step none
